@@ -156,6 +156,8 @@ func RunCheck(id, tier string, workers int, seed int64, race bool) *Report {
 	results := make([]*JobResult, len(names))
 	var mu sync.Mutex
 	next := 0
+	stop := false
+	failFast := os.Getenv("VERIF_FAILFAST") == "1"
 	var wg sync.WaitGroup
 	for w := 0; w < workers; w++ {
 		wg.Add(1)
@@ -163,14 +165,21 @@ func RunCheck(id, tier string, workers int, seed int64, race bool) *Report {
 			defer wg.Done()
 			for {
 				mu.Lock()
-				if next >= len(order) {
+				if next >= len(order) || stop {
 					mu.Unlock()
 					return
 				}
 				i := order[next]
 				next++
 				mu.Unlock()
-				results[i] = runWorker(id, tier, i, names[i])
+				r := runWorker(id, tier, i, names[i])
+				results[i] = r
+				if failFast && r != nil && len(r.Violations) > 0 {
+					// mutation sweeps only: no further shards are started once one reported a violation
+					mu.Lock()
+					stop = true
+					mu.Unlock()
+				}
 			}
 		}()
 	}
@@ -203,6 +212,10 @@ func RunCheck(id, tier string, workers int, seed int64, race bool) *Report {
 			rep.Errors = append(rep.Errors, r.Name+": "+r.Error)
 			rep.Exhaustive = false
 		}
+	}
+	if stop {
+		rep.Exhaustive = false
+		rep.Notes = append(rep.Notes, "VERIF_FAILFAST: stopped starting shards after the first violation")
 	}
 	rep.Outcomes = len(outcomes)
 	rep.WallS = time.Since(start).Seconds()
